@@ -1,4 +1,6 @@
 import CifModel.Lemmas.ParserTop
+import CifModel.Lemmas.ParserQuiet
+import CifModel.Lemmas.ParserConsistent
 /-
   Props/C03 — the parser is total and honours the error-callback contract on any input (property C03), as theorems about
   the integrated parser model `Model.Parser.parse` (tied to src/parser.c by the `parse` correspondence family).
@@ -193,6 +195,84 @@ theorem C03_die_is_first (o : Opts) (pre : Cif) (units : Str) :
     · simpa [dieAll] using h
     · simp only [dieAll] at hneg
       omega
+
+/-- **C03_reported** — every callback policy: a parse that fails with a value other than CIF_INVALID_INDEX (73) and the
+    model's out-of-fuel marker (1001) has reported at least one error.  In particular the "should not happen" exits of
+    parser.c (CIF_INTERNAL_ERROR from parse_value, parse_loop ×2 and parse_container; CIF_INVALID_ITEMNAME from
+    cif_container_set_value and from cif_packet_create; CIF_DUP_ITEMNAME from cif_packet_create) are never taken before
+    an error has been reported (`Lemmas/ParserQuiet`: on the report-free path the pending token is never of type ERROR, a
+    value is only parsed at a value token, an item is only stored under a valid name, and the names a loop header keeps are
+    valid, pairwise distinct after normalisation and not yet defined in the container). -/
+theorem C03_reported (o : Opts) (pol : Policy) (pre : Cif) (units : Str)
+    (hrc : (parse o pol pre units).rc ≠ 0) (h1 : (parse o pol pre units).rc ≠ 1001) (h2 : (parse o pol pre units).rc ≠ 73) :
+    (parse o pol pre units).log ≠ [] := by
+  intro hlog
+  -- with an empty log the parse coincides with the accept-all parse, and that with the parse under `dieAll`
+  obtain ⟨_, _, hs⟩ := parse_spec o pol pre (fuelFor units) units
+  change match firstNZ pol 0 (parse o acceptAll pre units).log.reverse with
+    | none => parse o pol pre units = parse o acceptAll pre units
+    | some x => (parse o pol pre units).log = (x.1 :: x.2).reverse ∧
+        ((parse o pol pre units).rc = pol x.2.length x.1 ∨ (pol x.2.length x.1 < 0 ∧ (parse o pol pre units).rc = 0)) at hs
+  cases hz : firstNZ pol 0 (parse o acceptAll pre units).log.reverse with
+  | some x =>
+    rw [hz] at hs
+    rw [hs.1] at hlog
+    simp at hlog
+  | none =>
+    rw [hz] at hs
+    simp only [] at hs
+    have hA : (parse o acceptAll pre units).log = [] := by rw [← hs]; exact hlog
+    have hd := C03_die_is_first o pre units
+    rw [hA] at hd
+    simp only [] at hd
+    have heq : parse o pol pre units = parse o dieAll pre units := by rw [hs, hd]
+    rw [heq] at hrc h1 h2 hlog
+    have hfin := parseInternal_die o (fuelFor units) units { log := [], cif := pre } rfl
+    unfold parse run at hrc h1 h2 hlog
+    cases hr : parseInternal o (fuelFor units) units dieAll { log := [], cif := pre } with
+    | ok a w => rw [hr] at hrc; exact hrc rfl
+    | abort c w =>
+      rw [hr] at hfin h1 h2 hlog
+      simp only [] at hfin h1 h2 hlog
+      rcases hfin with h | h | h
+      · apply h; simpa using hlog
+      · exact h1 h
+      · exact h2 h
+
+/-- the consistency of a managed CIF (`Lemmas/ParserStore.OkCif`), spelled out: block codes pairwise distinct after
+    normalisation; in every container, recursively: frame codes pairwise distinct after normalisation, every normalised item
+    name defined once over all loops, at most one scalar loop, and at most one packet in a scalar loop -/
+theorem C03_consistent_iff (o : Opts) (cif : Cif) :
+    OkCif o cif ↔ (cif.map fun c => o.norm c.code).Nodup ∧ ∀ c ∈ cif, OkC o c := by
+  unfold OkCif normCodes
+  rw [OkCs_iff]
+
+theorem C03_consistent_container (o : Opts) (code : Str) (fs : List Container) (ls : List Loop) :
+    OkC o (.mk code fs ls) ↔
+      ((normNames o ls).Nodup ∧ (ls.filter Parser.isScalarLoop).length ≤ 1 ∧
+        ∀ l ∈ ls, Parser.isScalarLoop l = true → l.packets.length ≤ 1) ∧
+      (fs.map fun c => o.norm c.code).Nodup ∧ ∀ c ∈ fs, OkC o c := by
+  rw [OkC_mk, OkCs_iff]
+  rfl
+
+/-- **C03_consistent_after** — every option record, every callback policy, every input, every consistent initial content of the
+    target: after the parse — completed, stopped by a callback answer (also a negative one), or left through one of the
+    parser's own failure exits — the target CIF is consistent. -/
+theorem C03_consistent_after (o : Opts) (pol : Policy) (pre : Cif) (units : Str) (h : OkCif o pre) :
+    OkCif o (parse o pol pre units).cif :=
+  parse_ok o pol pre units h
+
+/-- … in particular when the parse starts with an empty CIF -/
+theorem C03_consistent_after_fresh (o : Opts) (pol : Policy) (units : Str) : OkCif o (parse o pol [] units).cif :=
+  parse_ok o pol [] units ⟨by simp [normCodes], by simp [OkCs]⟩
+
+/-- the invariant is not vacuous: two blocks with the same code are not consistent, nor is a block that defines a name twice -/
+example (o : Opts) : ¬ OkCif o [.mk [97] [] [], .mk [97] [] []] := by
+  simp [OkCif, normCodes, Container.code]
+
+example (o : Opts) : ¬ OkCif o [.mk [97] [] [{ category := none, names := [[95, 120]], packets := [] },
+    { category := some [], names := [[95, 120]], packets := [] }]] := by
+  simp [OkCif, OkCs, OkC, LoopsOk, normNames]
 
 /-- under the all-accepting callback the parse returns CIF_OK or one of the codes the parser returns on its own -/
 theorem C03_accept_all (o : Opts) (pre : Cif) (units : Str) :
